@@ -211,7 +211,8 @@ def pytorch_stft_frame_computer(
         while consumed < filt_len:
             if conj:
                 seg_len = max(min(si + filt_len - consumed, half_len - 2 + mod) - si, 0)
-                seg = spect[..., -2 + mod - si - seg_len : -2 + mod - si].conj().flip(1)
+                seg_hi = half_len - 1 + mod - si
+                seg = spect[..., seg_hi - seg_len : seg_hi].conj().flip(1)
                 si -= half_len - 2 + mod
             else:
                 seg_len = max(0, min(si + filt_len - consumed, half_len) - si)
